@@ -58,6 +58,7 @@ pub fn replay_anim_line(tally: &mut Tally, lineno: usize, line: &Value, scales: 
     let big = extreme_scale(maxabs, over);
     let mut passes: Vec<(i64, f32)> = scales.iter().map(|&s| (s, 1.0f32)).collect();
     passes.push((scales[0], big));
+    passes.push((-6, 1.0));          // fine grid, tolerance regime (see `fine` below)
     for &(s, vs) in &passes {
         crate::tl::set_vscale(vs);
         let r = catch_unwind(AssertUnwindSafe(|| {
@@ -65,6 +66,17 @@ pub fn replay_anim_line(tally: &mut Tally, lineno: usize, line: &Value, scales: 
             let mut a = build_anim_order(line, s, lineno % 2 == 0);
             let mut twin = build_anim_order(line, s, lineno % 2 == 1);     // same history, time delivered in a different partition (C06); other builder call order
             let tick = scale(s);
+            // Below the 1/8 s grid `as_secs_f32` is not exact: the evaluated time may be one f32 step off the
+            // exact clock.  Values and the clock are then judged to tolerance, and not at all at instants where
+            // an f32 step changes the outcome discontinuously (cycle wrap, exact end).
+            let fine = s < -3;
+            let on_edge = |stno: i64, ticks: i64| -> bool {
+                line["tls"][(stno - 1) as usize].as_array().unwrap().iter().any(|c| {
+                    let tm = &c["tm"];
+                    let (cyc, del) = (tm["cyc"].as_i64().unwrap(), tm["del"].as_i64().unwrap());
+                    ticks >= del && ((ticks - del) % cyc == 0 || (2 * (ticks - del)) % cyc == 0)
+                })
+            };
             for (i, (op, ob)) in ops.iter().zip(obs.iter()).enumerate() {
                 let ctx = |class: &str, extra: Value| json!({"line": lineno, "scale": s, "step": i + 1, "class": class, "op": op, "detail": extra,
                                                              "history": &ops[..=i], "k": line["k"], "exp_ended": ob["ended"]});
@@ -93,11 +105,16 @@ pub fn replay_anim_line(tally: &mut Tally, lineno: usize, line: &Value, scales: 
                 }
                 // observations after the call
                 if st_no(a.current_state()) != ob["st"].as_i64().unwrap() { t.miss(ctx("state", json!({"got": st_no(a.current_state()), "expected": ob["st"]}))); }
+                // at such an instant the real time may fall on either side of a discontinuity, and the values
+                // reached there are inherited by every later blend: the fine pass stops judging this history
+                let edge = fine && on_edge(ob["st"].as_i64().unwrap(), ob["ticks"].as_i64().unwrap());
+                if edge { break; }
                 if a.is_ended() != ob["ended"].as_bool().unwrap() { t.miss(ctx("ended", json!({"got": a.is_ended(), "expected": ob["ended"], "ticks": ob["ticks"]}))); }
                 let v = a.current_values();
                 for (pi, term) in ob["vals"].as_array().unwrap().iter().enumerate() {
                     let p = pmap[pi];
-                    let ok = if vs != 1.0 && !P4::is_int(p) { agrees_any_scaled(&json!([term]), v.get(p), f64::NAN, vs as f64) } else { agrees(term, v.get(p), P4::is_int(p), f64::NAN) };
+                    let ok = if fine { let tv = eval_term(term); (v.get(p) - tv.v).abs() <= if P4::is_int(p) { 1.0 } else { 2e-4 * tv.mag.max(1.0) } }
+                             else if vs != 1.0 && !P4::is_int(p) { agrees_any_scaled(&json!([term]), v.get(p), f64::NAN, vs as f64) } else { agrees(term, v.get(p), P4::is_int(p), f64::NAN) };
                     if !ok {
                         t.miss(ctx("vals", json!({"prop": p, "got": v.get(p), "expected": term})));
                     }
@@ -110,11 +127,14 @@ pub fn replay_anim_line(tally: &mut Tally, lineno: usize, line: &Value, scales: 
                 let exp_pa = if exp_p.is_empty() { None } else { Some((st(exp_p[0].as_i64().unwrap()), dur(exp_p[1].as_i64().unwrap(), s))) };
                 // the clock of a state WITHOUT timeline has no observable meaning: not compared
                 let animated_now = !line["tls"][(ob["st"].as_i64().unwrap() - 1) as usize].as_array().unwrap().is_empty();
-                if (animated_now && sd != dur(ob["ticks"].as_i64().unwrap(), s)) || pa != exp_pa {
+                let clock_ok = if fine { (sd - dur(ob["ticks"].as_i64().unwrap(), s)).abs() <= 1e-7 * (1.0 + sd) && pa.as_ref().map(|p| st_no(&p.0)) == exp_pa.as_ref().map(|p| st_no(&p.0))
+                                           && pa.as_ref().zip(exp_pa.as_ref()).map(|(x, y)| (x.1 - y.1).abs() <= 1e-7 * (1.0 + y.1)).unwrap_or(true) }
+                               else { sd == dur(ob["ticks"].as_i64().unwrap(), s) && pa == exp_pa };
+                if (animated_now && !clock_ok) || (!animated_now && !fine && pa != exp_pa) {
                     t.miss(ctx("snap", json!({"got": [format!("{:?}", sd), format!("{:?}", pa)], "expected_ticks": ob["ticks"], "expected_paused": ob["paused"]})));
                 }
                 // C06: the twin saw the same total time per state in a different partition
-                if twin.current_values().bits() != v.bits() || twin.is_ended() != a.is_ended() || twin.verif_snapshot() != a.verif_snapshot() {
+                if !fine && (twin.current_values().bits() != v.bits() || twin.is_ended() != a.is_ended() || twin.verif_snapshot() != a.verif_snapshot()) {
                     t.miss(ctx("framerate", json!({"single": v.bits(), "partitioned": twin.current_values().bits()})));
                 }
             }
